@@ -172,7 +172,11 @@ class Scheduler:
         if self.cluster.check_ingest_capacity(pipeline_demand, max_ingest):
             if self.provision_ingest + pipeline_demand <= max_ingest:
                 cluster_capacity = True
-                self.provision_ingest += pipeline_demand
+                # Only reserve ingest machines for an observation that will
+                # actually start; the reservation is returned when its
+                # ingest ends (allocate_ingest).
+                if buffer_capacity:
+                    self.provision_ingest += pipeline_demand
                 LOGGER.debug(
                     "Cluster is able to process ingest for observation %s",
                     observation.name)
